@@ -209,6 +209,8 @@ def oracle(seed, tier):
         if c == 0:
             continue
         res.evaluations += 1
+        if res.enough():
+            break
         # exact ceiling (float path) while size is below 2**52
         if size < 2 ** 52 and c < 2 ** 52:
             n = calculate_num_parts(size, c)
@@ -289,6 +291,8 @@ def _oracle_e2e(res, rng, tier):
             tm.download('b', 'k', out).result()
         gets = fake.requests('get_object')
         res.evaluations += 1
+        if res.enough():
+            break
         multipart = any('Range' in g['args'] for g in gets)
         if multipart != (size >= thr):
             res.violation('multipart-iff', {'mode': 'download', 'size': size, 'thr': thr, 'chunk': chunk},
@@ -305,6 +309,8 @@ def _oracle_e2e(res, rng, tier):
         with _tm(fake, multipart_threshold=thr, multipart_chunksize=chunk) as tm:
             tm.copy({'Bucket': 'sb', 'Key': 'sk'}, 'b', 'k').result()
         res.evaluations += 1
+        if res.enough():
+            break
         mp = bool(fake.requests('create_multipart_upload'))
         if mp != (size >= thr):
             res.violation('multipart-iff', {'mode': 'copy', 'size': size, 'thr': thr},
@@ -324,6 +330,8 @@ def _oracle_e2e(res, rng, tier):
                 stream = io.BytesIO(data) if src == 'seekable' else _NonSeekable(data)
                 tm.upload(stream, 'b', 'k').result()
             res.evaluations += 1
+            if res.enough():
+                break
             mp = bool(fake.requests('create_multipart_upload'))
             if mp != (size >= thr):
                 res.violation('multipart-iff', {'mode': 'upload-' + src, 'size': size, 'thr': thr},
